@@ -4,6 +4,7 @@
   Timed model: bytes arrive in chunks at given times (ms); handling a request takes no time.
 -/
 import Ps3.Model.Proto
+import Ps3.Gen.Facts
 namespace Ps3.Timeout
 open Ps3 Ps3.Proto
 
@@ -45,7 +46,9 @@ def simulate (T : Nat) (armInLoop : Bool) : List Chunk → Nat → Nat → Bytes
       let loopTop' := if armInLoop && n' > n then t' else loopTop
       simulate T armInLoop rest t' loopTop' buf' n'
 
-def run (T : Nat) (cs : List Chunk) : Result := simulate T true cs 0 0 [] 0
+/-- the server as written: whether the deadline is armed inside the request loop is an F-shape fact
+    regenerated from `serveConn` on every run -/
+def run (T : Nat) (cs : List Chunk) : Result := simulate T Gen.server_armInLoop cs 0 0 [] 0
 
 /-! ### the write side (deadlineWriter): the deadline is re-armed before EVERY write of a response -/
 
